@@ -6,14 +6,14 @@ From GL Require Import Stack.Registry Stack.RegSpec Stack.StackApi
    the activation's list l, and can hold lim cells.
 
    Every script of Push/Pop/Get/SetTop/Insert/Remove/Replace/GetTop inside the domain (indices above
-   RegistryIndex; Insert not beyond top+1) that fits the registry logs exactly what the same script
+   RegistryIndex) that fits the registry logs exactly what the same script
    logs on the list l alone (returned values, GetTop, Get(1..top) after every operation), and ends
    with the registry holding the same callers' cells followed by the final list: the operations
    never read or write the caller prefix. *)
 Theorem api_refines_list : forall ops r pre l lim,
   Rr r (pre ++ l) lim -> L_dom l ops = true -> L_fits (len pre) lim l ops = true ->
   fst (arun r (len pre) ops) = fst (L_run l ops) /\
-  exists lim', lim <= lim' /\ Rr (snd (arun r (len pre) ops)) (pre ++ snd (L_run l ops)) lim'.
+  Rr1 (snd (arun r (len pre) ops)) (pre ++ snd (L_run l ops)) lim.
 Proof. exact api_refines_list_lemma. Qed.
 Print Assumptions api_refines_list.
 
@@ -24,8 +24,7 @@ Theorem api_step_refines : forall r pre l lim o,
   Rr r (pre ++ l) lim -> aop_dom (len l) o = true -> aneed (len pre) (len l) o <= lim ->
   match L_step l o with
   | (l1, ret, false) => exists r1, astep r (len pre) o = (AOk r1, ret) /\ Rr r1 (pre ++ l1) lim
-  | (l1, ret, true) => exists r1, astep r (len pre) o = (ARaised r1, ret) /\
-                                  Rr r1 (pre ++ l1) (Z.max lim (len pre + 1))
+  | (l1, ret, true) => exists r1, astep r (len pre) o = (ARaised r1, ret) /\ Rr1 r1 (pre ++ l1) lim
   end.
 Proof. exact astep_sim. Qed.
 Print Assumptions api_step_refines.
@@ -79,7 +78,7 @@ Theorem call_contract : forall r pre l fn args junk results nret fails lim,
   Rr r (pre ++ l) lim -> -1 <= nret ->
   len pre + len l + 1 + len args + len junk + len results + 1 <= lim ->
   len pre + len l + nret <= lim ->
-  exists r' lim', callByParamG r fn args junk results nret fails = Ok (r', fails) /\ lim <= lim' /\
-                  Rr r' (pre ++ l ++ (if fails then [] else adjust nret results)) lim'.
+  exists r', callByParamG r fn args junk results nret fails = Ok (r', fails) /\
+             Rr r' (pre ++ l ++ (if fails then [] else adjust nret results)) lim.
 Proof. exact call_contract_lemma. Qed.
 Print Assumptions call_contract.
